@@ -58,6 +58,7 @@ from spyne.util.cdict import cdict
 
 
 _date_re = re.compile(DATE_PATTERN)
+_boolean_literals = {'true': True, '1': True, 'false': False, '0': False}
 _time_re = re.compile(TIME_PATTERN)
 _duration_re = re.compile(
         r'(?P<sign>-?)'
@@ -569,7 +570,14 @@ class InProtocolBase(ProtocolMixin):
         return self.duration_from_unicode(cls, string)
 
     def boolean_from_bytes(self, cls, string):
-        return string.lower() in ('true', '1')
+        if isinstance(string, six.binary_type):
+            string = string.decode('ascii', 'replace')
+
+        retval = _boolean_literals.get(string.strip())
+        if retval is None:
+            raise ValidationError(string)
+
+        return retval
 
     def byte_array_from_bytes(self, cls, value, suggested_encoding=None):
         encoding = self.get_cls_attrs(cls).encoding
